@@ -178,6 +178,9 @@ pub mod weak;
 #[cfg(feature = "cleaners")]
 pub mod cleaners;
 
+#[cfg(feature = "verif-hooks")]
+pub mod verif;
+
 #[cfg(feature = "derive")]
 pub use derives::{Finalize, Trace};
 
@@ -215,6 +218,8 @@ pub(crate) fn trigger_collection(state: &State) {
 
     let _ = POSSIBLE_CYCLES.try_with(|pc| {
         if config::config(|config| config.should_collect(state, pc)).unwrap_or(false) {
+            #[cfg(feature = "verif-hooks")]
+            crate::verif::probe(26);
             collect(state, pc);
 
             adjust_trigger_point(state);
@@ -230,6 +235,8 @@ fn adjust_trigger_point(state: &State) {
 fn collect(state: &State, possible_cycles: &PossibleCycles) {
     state.set_collecting(true);
     state.increment_executions_count();
+    #[cfg(feature = "verif-hooks")]
+    crate::verif::probe(4);
 
     struct DropGuard<'a> {
         state: &'a State,
@@ -278,6 +285,8 @@ fn collect(state: &State, possible_cycles: &PossibleCycles) {
 }
 
 fn __collect(state: &State, possible_cycles: &PossibleCycles) {
+    #[cfg(feature = "verif-hooks")]
+    crate::verif::probe(5);
     let mut non_root_list = LinkedList::new();
     {
         let mut root_list = LinkedList::new();
@@ -315,12 +324,18 @@ fn __collect(state: &State, possible_cycles: &PossibleCycles) {
             }
 
             if !has_finalized {
+                #[cfg(feature = "verif-hooks")]
+                crate::verif::probe(8);
                 deallocate_list(non_root_list, state);
             } else {
                 // Put CcBoxes back into the possible cycles list. They will be re-processed in the
                 // next iteration of the loop, which will automatically check for resurrected objects.
 
                 let old_size = possible_cycles.size();
+                #[cfg(feature = "verif-hooks")]
+                crate::verif::probe(7);
+                #[cfg(feature = "verif-hooks")]
+                if old_size != 0 { crate::verif::probe(9); }
 
                 // possible_cycles is already marked PossibleCycles, while non_root_list is not.
                 // non_root_list have to be added to possible_cycles after having been marked.
